@@ -45,10 +45,14 @@ TClose == /\ IsEvent("close")
              ELSE IF cst[E.c] = "idle" THEN CloseIdle(E.c) ELSE cst[E.c] = "closed" /\ Same
 THead == IsEvent("head") /\ HeadDone(E.i)
 TRet == /\ IsEvent("ret")
-        /\ IF pc[E.i] \in {"start", "failed"} THEN E.ok = 0 /\ Same
+        /\ IF E.late = 1 THEN E.ok = 0 /\ Same   \* GetTimeout/GetDeadline gave up; the request goes on in the background
+           ELSE IF pc[E.i] \in {"start", "failed"} THEN E.ok = 0 /\ Same
+           ELSE IF pc[E.i] = "retok" /\ E.ok = 0 /\ E.redir > 0 THEN HopFail(E.i)
            ELSE Return(E.i) /\ ((E.ok = 1) <=> (pc[E.i] = "retok"))
+\* the caller compares a body it still holds with what its own request was sent: delivered units never change
+TIntact == IsEvent("intact") /\ E.same = 1 /\ res[E.i] = "ok" /\ Same
 
-TraceNext == TReset \/ TSend \/ TPush \/ TSrvClose \/ TPull \/ TRel \/ TClose \/ THead \/ TRet
+TraceNext == TReset \/ TSend \/ TPush \/ TSrvClose \/ TPull \/ TRel \/ TClose \/ THead \/ TRet \/ TIntact
 TraceSpec == TraceInit /\ [][TraceNext]_<<vars, l>>
 TraceInv == Inv
 
